@@ -665,4 +665,127 @@ Section Proofs.
     intros V D E. eapply consumers_output_is_blob; eauto.
     intros row w0 b w0' X. eapply write_chunk_sound; eauto.
   Qed.
+
+  (* ---------- readers ---------- *)
+
+  Lemma readseeker_load_err_sound s nid nd row w b w' :
+    verifying s = true -> H nd = nid ->
+    readseeker_load_err H zcomp zdecomp s nid nd row w = (Ok b, w') -> H b = fst row.
+  Proof.
+    intros V Hn. unfold readseeker_load_err. destruct (N.eqb (fst row) nid) eqn:En.
+    - intros X. injection X as <- _. apply N.eqb_eq in En. congruence.
+    - destruct (get s (fst row) w) as [[c|e] w1] eqn:E; [|discriminate].
+      destruct (stack_sound s _ w c w1 V E) as (d & Hd & Hh). rewrite Hd.
+      intros X. injection X as <- _. exact Hh.
+  Qed.
+
+  Lemma copy_index_chunks s nid nd rows w out w' :
+    verifying s = true -> H nd = nid ->
+    copy_index H zcomp zdecomp s nid nd rows w = (out, true, w') ->
+    exists bs, out = concat bs /\ map H bs = map fst rows.
+  Proof.
+    intros V Hn. revert w out w'. induction rows as [|r rest IH]; intros w out w'; cbn [copy_index].
+    - intros E. injection E as <- _. exists []. auto.
+    - destruct (readseeker_load_err H zcomp zdecomp s nid nd r w) as [[b|e] w1] eqn:E1; [|discriminate].
+      destruct (copy_index H zcomp zdecomp s nid nd rest w1) as [[bs ok] w2] eqn:E2.
+      intros E. injection E as <- -> _.
+      destruct (IH _ _ _ E2) as (l & -> & Hl). exists (b :: l). cbn. split; [reflexivity|].
+      f_equal; [|exact Hl]. eapply readseeker_load_err_sound; eauto.
+  Qed.
+
+  (* `desync cat` / any io.Copy from the index reader: success means the blob was copied. *)
+  Theorem copy_index_sound s nid nd rows w out w' blob :
+    verifying s = true -> H nd = nid -> index_describes H rows blob ->
+    copy_index H zcomp zdecomp s nid nd rows w = (out, true, w') -> out = blob \/ Collision H.
+  Proof.
+    intros V Hn [Hl Hm] E. destruct (copy_index_chunks _ _ _ _ _ _ _ V Hn E) as (bs & -> & Hb).
+    unfold ids in Hm. rewrite <- Hm in Hb.
+    destruct (map_hash_eq _ _ Hb) as [->|C]; [|now right].
+    left. apply concat_split_by. exact Hl.
+  Qed.
+
+  (* Before 898d634 the same held only for stacks that never return a bare io.EOF -- which
+     includes everything the command line builds (a StoreRouter is always on top). *)
+  Lemma ncfs_no_eof i raw cv sk : new_chunk_from_storage i raw cv sk <> Err EEof.
+  Proof.
+    unfold ChunkVerify.new_chunk_from_storage. destruct sk; [discriminate|].
+    destruct (chunk_data _) as [[d|] c1]; [|discriminate].
+    destruct (chunk_id c1) as [sum c']. destruct (N.eqb sum i); discriminate.
+  Qed.
+
+  Lemma wget_no_eof l i w w' : wget l i w <> (Err EEof, w').
+  Proof.
+    revert w w'. induction l as [k o|l IHl|l IHl|l IHl]; intros w w'; cbn [ChunkVerify.wget]; auto.
+    - unfold ChunkVerify.leaf_get. destruct (leaf_fetch k o i w) as [f w1].
+      destruct f; try destruct (lo_kind o); intros X; injection X as X _; try discriminate;
+        eapply ncfs_no_eof; eauto.
+    - specialize (IHl w). destruct (wget l i w) as [[c|[]] w1]; intros X; try discriminate.
+      eapply IHl; eauto.
+  Qed.
+
+  Lemma proto_free_no_eof s i w w' : never_eof s = true -> get s i w <> (Err EEof, w').
+  Proof.
+    revert w w'.
+    induction s as [l|s l IH|ss IH|f s0 ss IH0 IH|s IH|s IH|h sc sk un re s IH|h s IH] using stack_ind';
+      intros w w' V; cbn [ChunkVerify.get never_eof] in *.
+    - apply wget_no_eof.
+    - unfold ChunkVerify.cache_get.
+      destruct (wget l i w) as [[c|[]] w1] eqn:E1; try discriminate.
+      + destruct (get s i w1) as [[c|e] w2] eqn:E2.
+        * destruct (wput l c w2) as [[u|e] w3]; discriminate.
+        * intros X. injection X as -> ->. eapply IH; eauto.
+      + exfalso. eapply wget_no_eof; eauto.
+    - clear IH V. generalize (map (fun x => get x i) ss). intros gs. revert w.
+      induction gs as [|g r IHg]; intros w; cbn [router_get]; [discriminate|].
+      destruct (g w) as [[c|[]] w1]; try discriminate. apply IHg.
+    - apply andb_prop in V as [V0 V1]. unfold failover_get.
+      assert (F : Forall (fun g : getter => forall w w', g w <> (Err EEof, w')) (get s0 i :: map (fun x => get x i) ss)).
+      { constructor; [intros; apply IH0; auto|]. rewrite Forall_map.
+        rewrite forallb_forall in V1. rewrite Forall_forall in *. intros x Hx w0 w0'. apply IH; auto. }
+      revert F. generalize (map (fun x => get x i) ss). intros gs F.
+      assert (L : forall n e w w', e <> EEof -> failover_loop n f (get s0 i) gs e w <> (Err EEof, w')).
+      { induction n as [|n IHn]; intros e w0 w0' Ne; cbn [failover_loop]; [congruence|].
+        match goal with |- context [nth ?a ?l ?d w0] =>
+          assert (Hn : forall w1 w1', nth a l d w1 <> (Err EEof, w1'));
+          [ destruct (nth_in_or_default a l d) as [Hin|Hd];
+            [ rewrite Forall_forall in F; apply F, Hin | rewrite Hd; inversion F; auto ]
+          | destruct (nth a l d w0) as [[c|[]] w1] eqn:En; try discriminate;
+            try (apply IHn; discriminate); exfalso; eapply Hn; eauto ]
+        end. }
+      apply L. discriminate.
+    - apply IH, V.
+    - apply IH, V.
+    - clear IH V. revert w. generalize (pred re). intros n.
+      induction n as [|n IHn]; intros w; cbn [ChunkVerify.http_loop];
+        destruct (http_serve sc un (get s i) w) as [r w1]; destruct (net h i w1) as [fl w2];
+        destruct fl, r; try discriminate; try apply IHn;
+        intros X; injection X as X _; eapply ncfs_no_eof; eauto.
+    - discriminate.
+  Qed.
+
+  Lemma copy_pre898d634_eq s nid nd rows w :
+    never_eof s = true ->
+    copy_index_pre898d634 H zcomp zdecomp s nid nd rows w = copy_index H zcomp zdecomp s nid nd rows w.
+  Proof.
+    intros V. revert w. induction rows as [|r rest IH]; intros w; cbn [copy_index copy_index_pre898d634]; auto.
+    destruct (readseeker_load_err H zcomp zdecomp s nid nd r w) as [[b|e] w1] eqn:E1.
+    - now rewrite IH.
+    - destruct e; auto. exfalso. revert E1. unfold readseeker_load_err.
+      destruct (N.eqb (fst r) nid); [discriminate|].
+      destruct (get s (fst r) w) as [[c|e] w2] eqn:E2.
+      + destruct (data_of c); discriminate.
+      + intros X. injection X as -> ->. eapply proto_free_no_eof; eauto.
+  Qed.
+
+  Theorem copy_pre898d634_sound_no_eof s nid nd rows w out w' blob :
+    verifying s = true -> never_eof s = true -> H nd = nid -> index_describes H rows blob ->
+    copy_index_pre898d634 H zcomp zdecomp s nid nd rows w = (out, true, w') -> out = blob \/ Collision H.
+  Proof. intros V N Hn D E. rewrite copy_pre898d634_eq in E by exact N. eapply copy_index_sound; eauto. Qed.
+
+  (* The defect: a store error that is io.EOF ended the copy with success, whatever was left. *)
+  Lemma copy_pre898d634_truncates s nid nd r rest w w1 :
+    readseeker_load_err H zcomp zdecomp s nid nd r w = (Err EEof, w1) ->
+    copy_index_pre898d634 H zcomp zdecomp s nid nd (r :: rest) w = ([], true, w1)
+    /\ copy_index H zcomp zdecomp s nid nd (r :: rest) w = ([], false, w1).
+  Proof. intros E. cbn [copy_index copy_index_pre898d634]. now rewrite E. Qed.
 End Proofs.
